@@ -1,10 +1,13 @@
 /-
   Call depth of the operations that walk a list (C16).  Each function mirrors which traversals of the
   real implementation are loops and which are recursion:
-    * derived `Clone` / `PartialEq` / drop glue recurse through every field (car AND cdr);
-    * `impl Drop for Cons` unlinks the cdr chain in a loop and recurses only into cars (and into the
-      tail);  `Printer::print`, `parse_list`, the iterators, `Index`, `is_list`, `to_vec` walk the cdr
-      chain in a loop and recurse only where the structure nests.
+    * a derived `Clone` / `PartialEq` / drop glue recurses through every field (car AND cdr): this is
+      what `Cons` and the span information of a `Datum` had on the pinned tree (`derived` below, kept
+      as the witness of the defect repaired by /repo commit 54f14f8);
+    * `impl Drop for Cons` — and since 54f14f8 `Clone` and `PartialEq` for `Cons`, and `Clone`,
+      `PartialEq` and `Drop` for `SpanInfo` — walk the cdr chain in a loop and recurse only into cars
+      (and into the tail);  `Printer::print`, `parse_list`, the iterators, `Index`, `is_list`, `to_vec`
+      walk the cdr chain in a loop and recurse only where the structure nests.
   Depth 1 = one frame.
 -/
 import LexprModel.Value
@@ -13,7 +16,7 @@ namespace Lexpr
 namespace Depth
 
 mutual
-/-- derived `Clone` / `PartialEq` on `Value` and `Cons`: one frame per cell along the cdr chain -/
+/-- a derived `Clone` / `PartialEq` on `Cons` (the pinned tree): one frame per cell along the cdr chain -/
 def derived : Value → Nat
   | .cons a d => max (derived a) (derived d) + 1
   | .vector xs => derivedList xs + 1
@@ -25,7 +28,8 @@ end
 
 mutual
 /-- operations that loop along the cdr chain and recurse only into elements:
-    `Drop for Cons`, `Printer::print`, the parser, `to_vec`, iterators, `Index` (depth 1 for the
+    `Drop`, `Clone`, `PartialEq` for `Cons` and `SpanInfo`, `Printer::print`, the parser, `to_vec`,
+    iterators, `Index` (depth 1 for the
     non-recursive ones is bounded by this as well) -/
 def looped : Value → Nat
   | .cons a d => max (looped a) (loopedTail d) + 1
